@@ -37,7 +37,8 @@ def _dump_obls(I):
     out = []
     for o in I.obls.values():
         out.append({'kind': o.kind, 'fn': o.fn, 'bb': o.bb, 'desc': o.desc, 'span': o.span, 'visits': o.visits,
-                    'fails': o.fails, 'sample': o.sample, 'roots': sorted(o.roots)[:400], 'nroots': len(o.roots)})
+                    'fails': o.fails, 'sample': o.sample, 'roots': sorted(o.roots)[:400], 'nroots': len(o.roots),
+                    'fail_roots': sorted(o.roots)[:400] if o.fails else []})
     return out
 
 
@@ -188,6 +189,7 @@ def analyze(facts_path, out_path, jobs=None, only=''):
                 if m['sample'] is None and o['sample'] is not None:
                     m['sample'] = o['sample']
                 m['roots'] = sorted(set(m['roots']) | set(o['roots']))[:400]
+                m['fail_roots'] = sorted(set(m.get('fail_roots', [])) | set(o.get('fail_roots', [])))[:400]
     unmod = {}
     axioms = {}
     for r in results:
